@@ -566,7 +566,18 @@ func (w *Lit) End() Pos {
 }
 func (w *Quote) End() Pos {
 	end := w.Value.End()
-	if end.IsZero() || w.Tok == `\` {
+	switch {
+	case end.IsZero():
+		// nothing is quoted: "" and '', or a <backslash> at the end
+		// of the input
+		if w.TokPos.IsZero() {
+			return end
+		}
+		if w.Tok == `\` {
+			return w.TokPos.shift(1)
+		}
+		return w.TokPos.shift(2)
+	case w.Tok == `\`:
 		return end
 	}
 	return end.shift(1)
